@@ -229,6 +229,10 @@ pub fn run_conc(toks: &[&str], dir: &Path) -> String {
         out.push(format!("c{}={}{}", i, c.result, if c.origin_ok { "" } else { "!origin" }));
     }
     out.push(format!("tree={}", snapshot_pub(&root)));
+    for c in clients {
+        retire_socket(c.sock);
+    }
+    retire_socket(intruder);
     let _ = std::fs::remove_dir_all(&root);
     out.join(" ")
 }
